@@ -19,6 +19,11 @@ pub trait Write: Sized {
 	fn write_all(&mut self, buf: &[u8]) -> (res: std::result::Result<(), IoError>)
 		ensures res is Ok ==> (*final(self)).written() == (*old(self)).written() + buf@;
 
+	// flush: pushes buffered bytes down; the log of accepted bytes is unchanged
+	#[verifier::external_body]
+	fn flush(&mut self) -> (res: std::result::Result<(), IoError>)
+		ensures (*final(self)).written() == (*old(self)).written()
+	{ unimplemented!() }
 	#[verifier::external_body]
 	fn write_u8(&mut self, x: u8) -> (res: std::result::Result<(), IoError>)
 		ensures res is Ok ==> (*final(self)).written() == (*old(self)).written() + bytes_u8(x)
